@@ -163,8 +163,11 @@ def r1(ctx):
                      "self.min_dz" in src(t_) for t_, _s in U.stores(m.node))
         if wr:
             writers.append(nm)
-    if len(writers) < 2:
-        raise AnalysisError('writers of Reactor.min_dz: %s' % writers)
+    ctx.require(len(writers) >= 2, 'C05.R1', init, init.node,
+                'both the assemblies and the inter-assembly gap must '
+                'contribute a step requirement to min_dz (contributors '
+                'found: %s)' % writers,
+                key=init.full + ' | contributors to min_dz')
     for nm in sorted(writers):
         w_ = gi.find(lambda n, nm=nm: isinstance(n, ast.Call) and
                      call_name(n) == 'self.' + nm)
